@@ -256,7 +256,7 @@ func (w *vWorld) afterClose() {
 // save succeeding, being slow, or being rejected.
 func H_C13_idle() {
 	setMerge(true)
-	vC13Preempt()
+	setPreempt(0) // 45k paths already at blocking-point orders; with a pre-emption the space exceeds the path budget
 	auto := nondetBool("auto")
 	health := nondetBool("health")
 	w := vNewWorld(auto, health)
@@ -273,7 +273,11 @@ func H_C13_idle() {
 	case 2:
 		w.st.fail = true
 	}
-	time.Sleep([]time.Duration{0, 8 * time.Second, 21 * time.Second}[choose("when", 3)])
+	whens := []time.Duration{0, 8 * time.Second, 21 * time.Second}
+	if tierThorough() {
+		whens = []time.Duration{0, 6999 * time.Millisecond, 7 * time.Second, 8 * time.Second, 20 * time.Second, 21 * time.Second, 28 * time.Second}
+	}
+	time.Sleep(whens[choose("when", len(whens))])
 	want := w.tracked(0)
 	w.d.close()
 	cover("closed")
@@ -399,7 +403,7 @@ func (c *vClient) GetAgent() *gocbcore.Agent { return nil }
 // and while observe replies are outstanding.
 func H_C13_mitigation() {
 	setMerge(true)
-	vC13Preempt()
+	setPreempt(0)
 	vObserveCalls, vObserveAfterClose, vShutdown = 0, 0, false
 	w := &vWorld{cl: &vClient{observers: map[uint16]couchbase.Observer{}}, st: &vStore{docs: map[uint16]*models.CheckpointDocument{}},
 		co: &vConsumer{}, disc: &vDiscovery{member: 1}, cfg: &config.Dcp{}}
